@@ -20,6 +20,9 @@ THEOREMS = [
     "O2P.Diagram.runs_wellformed",
     "O2P.Diagram.accepts_iff",
     "O2P.Diagram.parse_ok_tail",
+    "O2P.Diagram.isoB_sound",
+    "O2P.Diagram.isoB_complete",
+    "O2P.Diagram.accepts_iff_iso",
 ]
 
 
